@@ -3,6 +3,7 @@ import Vata.Spec
 import Vata.Proofs.RunBridge
 import Vata.Proofs.TrimModel
 import Vata.Proofs.PropAux
+import Vata.Proofs.UsefulAux
 /-!
 # C03 – Trimming preserves the language and leaves no dead states; emptiness is exact
 
@@ -26,8 +27,10 @@ import Vata.Proofs.PropAux
   `removeUnreachable`) models `RemoveUselessStates`.  `IsLangEmpty` is "no final state survives useless-state
   removal": `(removeUseless A).final = []`, equivalently `isEmptyRef A`.
 * **Checkers / reference.**  `allReachableB`, `allUsefulB` are the Boolean post-condition checks applied to the
-  automata the real code returns; `equivM`, `emptyM` (`Vata/Lang.lean`) the exact language deciders they are compared
-  with.
+  automata the real code returns; they *decide* the two post-conditions of the statement (`C03_postcondition_checkers_sound`
+  and `C03_postcondition_checkers_complete`: a state that takes part in an accepting run is productive and reachable
+  top-down, `Vata/Proofs/UsefulAux.lean`), so a `false` of a checker on an output of the real code is a genuine violation.
+  `equivM`, `emptyM` (`Vata/Lang.lean`) are the exact language deciders the outputs are compared with.
 -/
 namespace Vata.Props
 open Vata
@@ -97,6 +100,33 @@ theorem C03_postcondition_checkers_sound (A : TA) :
 example : allReachableB (removeUnreachable TrimEx.exA) = true ∧ allReachableB TrimEx.exA = false ∧
     allUsefulB (removeUseless TrimEx.exA) = true ∧ allUsefulB (removeUnreachable TrimEx.exA) = false := by decide
 
+/-- … and complete: the checks answer `true` on every automaton that satisfies the post-condition, so together with
+soundness they decide it.  For "no useless state or rule" the usefulness of the occurring states suffices (it implies
+that of the rules, third component); the key fact is that a state taking part in an accepting run is productive and
+reachable top-down from a final state (fourth component) -/
+theorem C03_postcondition_checkers_complete (A : TA) :
+    ((∀ q, Occurs A q → TdReachable A q) → allReachableB A = true) ∧
+    ((∀ q, Occurs A q → UsefulState A q) → allUsefulB A = true) ∧
+    ((∀ q, Occurs A q → UsefulState A q) → ∀ r, r ∈ A.rules → UsefulRule A r) ∧
+    (∀ q, UsefulState A q → Productive A q ∧ TdReachable A q) :=
+  ⟨UsefulAux.allReachableB_complete, UsefulAux.allUsefulB_complete, UsefulAux.usefulRule_of_states,
+    fun _ h => UsefulAux.usefulState_good h⟩
+
+-- the hypothesis holds for the output of the model (and the checker then must answer `true`); on the untrimmed input
+-- the checker answers `false`, hence – by completeness – some occurring state is NOT useful: a genuine violation
+example : ∀ q, Occurs (removeUseless TrimEx.exA) q → UsefulState (removeUseless TrimEx.exA) q :=
+  removeUseless_post_state TrimEx.exA
+example : ¬ ∀ q, Occurs TrimEx.exA q → UsefulState TrimEx.exA q :=
+  fun h => absurd ((C03_postcondition_checkers_complete TrimEx.exA).2.1 h) (by decide)
+
+/-- the checkers decide the post-conditions of the statement -/
+theorem C03_postcondition_checkers_exact (A : TA) :
+    (allReachableB A = true ↔ ∀ q, Occurs A q → TdReachable A q) ∧
+    (allUsefulB A = true ↔ (∀ q, Occurs A q → UsefulState A q) ∧ (∀ r, r ∈ A.rules → UsefulRule A r)) :=
+  ⟨UsefulAux.allReachableB_iff A, ⟨allUsefulB_sound A, fun h => UsefulAux.allUsefulB_complete h.1⟩⟩
+
+example : allReachableB (removeUnreachable TrimEx.exA) = true ∧ allUsefulB (removeUnreachable TrimEx.exA) = false := by decide
+
 /-- every verdict of the reference deciders for language equality and emptiness is exact -/
 theorem C03_reference_exact (A B : TA) (fuel : Nat) (b : Bool) :
     (equivM A B fuel = some b → (b = true ↔ LangEq A B)) ∧ (emptyM A fuel = some b → (b = true ↔ LangEmpty A)) :=
@@ -114,7 +144,7 @@ example : equivM (removeUseless TrimEx.exA) TrimEx.exA 10 = some true ∧ emptyM
   fact about the C++ that is established by the correspondence check, not by a theorem.
 * The work-list bookkeeping of `RemoveUselessStates` (`remaining` counters per rule) is modelled by rounds
   (`prodIter`), not step by step; only the computed sets are proved to be the specified ones (`C03_worklists_exact`).
-* Completeness of the post-condition checkers (`allUsefulB A = true` whenever all states and rules are useful) is not
-  proved; only soundness is, which is the direction the check needs.
+* No totality theorem for the reference deciders `equivM`, `emptyM` (`none` on too little fuel; every `some` is exact).
+  The post-condition checkers and `isEmptyRef` are total functions.
 -/
 end Vata.Props
